@@ -34,6 +34,6 @@ ChS == Singles(K4, PVs) \cup Pairs(K4, PVs) \cup TriplesMono(K4, {0, 1, 2, 5}) \
 
 \* bound of the total voting power: MaxTotal = 100 in the model
 PVb == {0, 1, 2, 98, 99, 100, 101}
-InitB == { <<1, 1, 0>>, <<99, 0, 0>>, <<98, 1, 0>>, <<0, 100, 0>>, <<1, 0, 98>>, <<50, 49, 1>> }
+InitB == { <<1, 1, 0>>, <<99, 0, 0>>, <<98, 1, 0>>, <<0, 100, 0>>, <<1, 0, 98>>, <<97, 1, 1>> }
 ChB == Singles(K3, PVb) \cup Pairs(K3, PVb)
 =============================================================================
